@@ -70,6 +70,12 @@ func c05Check(src []rune, part string) *mc.Failure {
 			}
 			if _, missing := zn.Dump(tree); len(missing) > 0 {
 				f = &mc.Failure{Kind: "mismatch", Bucket: "incomplete:" + missing[0], Case: cs(), Expected: "complete tree or syntax error", Observed: fmt.Sprintf("tree with missing parts %v", missing)}
+				return
+			}
+			// a tree stands for the WHOLE text: the tokeniser, run over the text on its own, gets to
+			// its end too (a text whose tail cannot even be cut into tokens has no tree)
+			if _, lexErr, _ := c04Lex(src, nil); lexErr != "" {
+				f = &mc.Failure{Kind: "mismatch", Bucket: "tree-for-untokenisable-text", Case: cs(), Expected: "a syntax error: the tokeniser alone rejects this text (" + lexErr + ")", Observed: "a tree and no error"}
 			}
 			return
 		}
@@ -167,7 +173,7 @@ func init() {
 	mc.Register(&mc.Check{
 		ID:    "C05",
 		Level: "exploration",
-		Rule:  "E1 exhaustive: (a) every sequence of <= L symbols over a 35-symbol alphabet (6 keywords as units, all 12 punctuation marks, quotes, backtick, space, TAB, CR, LF, newline+indent, a name, a digit, + = #, NUL, U+0085, an astral character); (b) for every program of a corpus of valid renderings: truncation at every offset, deletion and duplication of every rune, insertion of every alphabet symbol at every offset (and all pairs of deletions on a subset); (c) the same inputs through ExecVarInputText, each text submitted twice in one process (termination; the second submission is answered like the first); (f) statement headers: every small expression (12 kinds) alone, in pairs and (6 kinds) in triples in the name slots of 以…遍历, 令, 输入, 得到, 如何, 恒为, 定义, 抛出; (e) deep nesting: 6 opening constructs ({ 【 a call, 以-chain, unary minus, 1 + {) repeated 1 .. 2 000 000 times around one operand, closed and unclosed: a tree or a positioned syntax error, and the process survives; (d) long lines: 14 faulty tails behind 6 kinds of padding (a long text, a long name, a long sum, blanks, a long comment, a long list) of every width 0..160 (0..400 thorough) on the only line, on the last line and on a middle line. Oracle: terminates (watchdog), returns a tree xor a *SyntaxError with code != 0 and 0 <= position <= length, any returned tree passes the completeness walker, DisplayError succeeds and quotes a line of the source; the text is handed over as a slice of a larger array and neither it nor the guard element behind it is written to. Distinct by construction; non-trivial = not parsed successfully or longer than one symbol.",
+		Rule:  "E1 exhaustive: (a) every sequence of <= L symbols over a 35-symbol alphabet (6 keywords as units, all 12 punctuation marks, quotes, backtick, space, TAB, CR, LF, newline+indent, a name, a digit, + = #, NUL, U+0085, an astral character); (b) for every program of a corpus of valid renderings: truncation at every offset, deletion and duplication of every rune, insertion of every alphabet symbol at every offset (and all pairs of deletions on a subset); (c) the same inputs through ExecVarInputText, each text submitted twice in one process (termination; the second submission is answered like the first); (f) statement headers: every small expression (12 kinds) alone, in pairs and (6 kinds) in triples in the name slots of 以…遍历, 令, 输入, 得到, 如何, 恒为, 定义, 抛出; (e) deep nesting: 6 opening constructs ({ 【 a call, 以-chain, unary minus, 1 + {) repeated 1 .. 2 000 000 times around one operand, closed and unclosed: a tree or a positioned syntax error, and the process survives; (d) long lines: 14 faulty tails behind 6 kinds of padding (a long text, a long name, a long sum, blanks, a long comment, a long list) of every width 0..160 (0..400 thorough) on the only line, on the last line and on a middle line. Oracle: terminates (watchdog), returns a tree xor a *SyntaxError with code != 0 and 0 <= position <= length, any returned tree passes the completeness walker and belongs to a text that the tokeniser alone reads to its end, DisplayError succeeds and quotes a line of the source; the text is handed over as a slice of a larger array and neither it nor the guard element behind it is written to. Distinct by construction; non-trivial = not parsed successfully or longer than one symbol.",
 		Assumptions: []string{
 			"a recovered Go runtime error leaking out of Parser.Parse as the error value is counted as a violation (it is not a syntax error with a position)",
 			"hang = no result for 20 s on an input whose normal cost is microseconds; confirmed in a fresh process",
